@@ -657,6 +657,25 @@ theorem reopen_inv {s : St} {hist : List MEntry} (h : EInv s hist) : EInv (reope
     split <;> omega
 
 
+theorem reopenFresh_inv {s : St} {hist : List MEntry} (h : EInv s hist) : EInv (reopenFresh s) hist ∧
+    (reopenFresh s).lastSeq = s.lastSeq ∧ (reopenFresh s).walNext = s.walNext := by
+  obtain ⟨hi, h1, h2⟩ := reopen_inv h
+  unfold reopenFresh
+  split
+  · exact ⟨hi, h1, h2⟩
+  · refine ⟨?_, h1, h2⟩
+    have hfl : ((reopen s).wal ++ [[]]).flatten = (reopen s).wal.flatten := by simp
+    obtain ⟨a, b, c, d, e, f, g, i, j⟩ := hi
+    exact ⟨a, by simp only [hfl]; exact b, by simp only [hfl]; exact c, d, e, f, g, i, j⟩
+
+theorem reopenC_inv {s : St} {hist : List MEntry} (h : EInv s hist) : EInv (reopenC s) hist ∧
+    (reopenC s).lastSeq = s.lastSeq ∧ (reopenC s).walNext = s.walNext := by
+  unfold reopenC
+  split
+  · exact reopenFresh_inv h
+  · exact reopen_inv h
+
+
 /-! ### the abstract map of a history, and what `get` returns -/
 
 def absOf (hist : List MEntry) : KVMap := fun k => (hist.find? (fun e => e.key == k)).bind (·.val)
